@@ -57,7 +57,9 @@ fn parse_method(buf: &[u8]) -> Result<(Method, &[u8]), HttpParsingError> {
                 b"OPTIONS" => Method::Options,
                 b"TRACE" => Method::Trace,
                 _ => {
-                    if !method_bytes.iter().all(|b| b.is_ascii_alphabetic()) {
+                    if method_bytes.is_empty()
+                        || !method_bytes.iter().all(|b| b.is_ascii_alphabetic())
+                    {
                         return Err(MalformedStatusLine);
                     }
                     let s = unsafe { std::str::from_utf8_unchecked(method_bytes) };
